@@ -886,8 +886,15 @@ func pBig(a []string) (res string) {
 	p2Off := hi + 0x2000
 	if v == 4 {
 		n, nP2, p2Off, k = hi+0x200000, 65537, hi+0x20000, 0
+	} else if len(a) > 3 {
+		n = int(UnN(a[3])) // 24 MiB, 32 MiB: the anchors themselves map to offsets above 16 MiB
 	}
 	img := make([]byte, n)
+	if len(a) > 4 && a[4] != "0" { // erased flash instead of zeros between the structures
+		for i := range img {
+			img[i] = byte(UnN(a[4]))
+		}
+	}
 	efsOff := int(anchors[k] - ((1 << 32) - uint64(n)))
 	type blob struct{ off, size int }
 	blobA := blob{hi + 0x5000, 70000}
@@ -1967,6 +1974,27 @@ func gen(r *Rng, tier string, emit Emit) {
 			emit("P", "p_big", N(uint64(bx.Intn(6))), N(bx.U64()), N(uint64(bx.Intn(4))))
 		}
 		emit("P", "p_big", "0", N(bx.U64()), "4") // 65537 entries
+	}
+	// 24 and 32 MiB: in one of the two every anchor (and with it the EFS) lies above 16 MiB; the
+	// later anchors carry useless signatures, some of them below 16 MiB
+	bigs := [][3]int{{0, 24, 0}, {4, 24, 0xFF}, {5, 32, 0}, {2, 32, 0xFF}}
+	if tier == "thorough" {
+		bigs = nil
+		for k := range anchors {
+			bigs = append(bigs, [3]int{k, 24, 0xFF * (k % 2)}, [3]int{k, 32, 0xFF * ((k + 1) % 2)})
+		}
+	}
+	for i, c := range bigs {
+		emit("P", "p_big", N(uint64(c[0])), N(uint64(0xB16+i)), N(uint64((c[0]+i)%4)), N(uint64(c[1])<<20), N(uint64(c[2])))
+	}
+	for _, mib := range []int{24, 32} {
+		for k, ad := range anchors {
+			emit("C", "phys2off", N(uint64(mib)<<20), N(ad))
+			emit("P", "p_efs", N(uint64(mib)<<20), N(1<<uint(k)))
+			if k%2 == 0 {
+				emit("P", "p_efs", N(uint64(mib)<<20), N(0x3F&^(1<<uint(k)-1)))
+			}
+		}
 	}
 
 	// ---- EFS probing with manifest.FirmwareImage at true sizes ----
